@@ -22,7 +22,7 @@ ASSUMPTIONS = ["controls whose sample covariance matrix has an entry below 1e-8 
                "degenerate-control guard, 1e-12, is far below)",
                "single process (nb_of_processes = 1); the scripted process stands for any Process"]
 REQUIRED_COUNTERS = ["price_checks", "stddev_checks", "each_path_once_checks", "control_variate_checks", "cv_mean_invariance",
-                     "cv_variance_checks", "vector_payoff_cases", "spot_statistics_cases"]
+                     "cv_variance_checks", "vector_payoff_cases", "spot_statistics_cases", "control_variates_object_reused"]
 MIN_NONTRIVIAL = {"quick": 100, "thorough": 1500}
 THOROUGH_ROUNDS = 20      # the thorough tier runs the generators this many times (different seeds)
 
@@ -198,6 +198,27 @@ def run_case(case, R):
                             f"controls priced at their own sample means: price {pr2.tolist()} but raw mean {want.tolist()}", wit)
         except Exception as exc:  # noqa: BLE001
             R.violation("engine-raises-second-run", f"{type(exc).__name__}: {exc}", wit)
+    # ---- the same ControlVariates object used for a second pricing of ANOTHER kind of product (log-spot underlying): same result as with a
+    #      ControlVariates object that has not priced anything before
+    if cvs and dim == 1 and case["seed"] % 3 == 0:
+        from rpylib.product.underlying import LogSpot
+
+        prod2 = Product(payoff_underlying=LogSpot(), payoff=P.Forward(strike=1.0), maturity=T, notional=notional)
+
+        def run2(cv):
+            proc2 = ScriptedProcess(list(s), dim=1, rate=rate)
+            conf2 = ConfigurationStandard(mc_paths=N, seed=12345, control_variates=cv, activate_spot_statistics=False, nb_of_processes=1)
+            return np.atleast_1d(np.asarray(Engine(conf2, proc2).price(prod2).price(), dtype=float))
+
+        try:
+            used = run2(cv_obj)                                                     # cv_obj has priced `product` above
+            fresh = run2(ControlVariates(products=cvs, prices=prices))
+            R.hit("control_variates_object_reused")
+            if not np.allclose(used, fresh, rtol=1e-10, atol=1e-12 * (1 + float(np.max(np.abs(fresh)))), equal_nan=True):
+                R.violation("control-variates-object-remembers-the-previous-pricing", f"a ControlVariates object that priced a {case['product']} on the spot gives "
+                            f"{used.tolist()} for a forward on the log-spot, a fresh object with the same products and prices gives {fresh.tolist()}", wit)
+        except Exception as exc:  # noqa: BLE001
+            R.violation("engine-raises-second-product", f"{type(exc).__name__}: {exc}", wit)
     if N >= 3 and np.std(Y2[:, 0]) > 0:
         R.nontrivial_case(case["seed"])
     if case["seed"] % 40 == 0:
